@@ -359,6 +359,38 @@ func c08Codec(c *lab.Ctx) {
 			}
 			c.Case("base codec=%s #%d %s", name, bi, rf.Desc)
 			c08Inputs(brng, rf.Raw, heavy, try)
+			if name == "bolt" || name == "boltv2" {
+				// header blocks written from the block's own grammar - a sequence of (4-byte length, bytes) strings - with lengths from
+				// {-1 (the SDK's null string), 0, 1..5, one more than what follows}, odd and even numbers of strings, dangling tails:
+				// combinations of TWO or more unusual fields, which the single-field grid cannot produce
+				for i := 0; i < 120; i++ {
+					var blk []byte
+					for k := brng.Intn(7); k > 0; k-- {
+						switch brng.Intn(5) {
+						case 0:
+							blk = append(blk, 0xff, 0xff, 0xff, 0xff)
+						case 1:
+							blk = append(blk, 0, 0, 0, 0)
+						default:
+							n := 1 + brng.Intn(5)
+							blk = append(blk, be32(uint32(n))...)
+							blk = append(blk, []byte(brng.Alnum(n))...)
+						}
+					}
+					switch brng.Intn(4) {
+					case 0:
+						blk = append(blk, brng.Bytes(1+brng.Intn(3))...) // 1..3 dangling bytes
+					case 1:
+						blk = append(blk, be32(uint32(1+brng.Intn(4)))...) // a length with nothing behind it
+					}
+					f := boltFields{V2: name == "boltv2", Ver1: 1, CmdType: []byte{0, 1, 2}[brng.Intn(3)], CmdCode: 1, Ver: 1, ID: uint32(1 + brng.Intn(1000)), Codec: 1,
+						Class: []byte(brng.Alnum(brng.Intn(4))), HeaderBlk: blk, Content: brng.Bytes(brng.Intn(6))}
+					if f.CmdType == 0 {
+						f.CmdCode = 2
+					}
+					try("header-grammar", buildBolt(f))
+				}
+			}
 			for i := 0; i < 200; i++ { // pure random, and random behind a valid magic
 				b := brng.Bytes(brng.Intn(64))
 				if i%2 == 0 && len(b) >= 8 && len(rf.Raw) >= 8 {
